@@ -496,6 +496,16 @@ fn main() {
             }
         }
     }
+    // X5-style textual shape obligations
+    for (fname, cl) in unit.require_texts.iter() {
+        let p = format!("{}/src/{}", args.repo, fname);
+        let text = std::fs::read_to_string(&p).unwrap_or_else(|e| fatal(&format!("cannot read {}: {}", p, e)));
+        let sq = |s: &str| -> String { strip_comments(s).chars().filter(|c| !c.is_whitespace()).collect() };
+        let ok = sq(&text).contains(&sq(&cl.text));
+        out.fns.push(serde_json::json!({"func": format!("{} (text shape)", fname), "file": fname, "src_line": 1, "src_end_line": 1, "woven": false, "shape": cl.text, "shape_ok": ok}));
+        ctx.obligations.push(Obligation { idx: ctx.obligations.len(), id: cl.id.clone(), props: cl.props.clone(), kind: if ok { "shape-ok".into() } else { "shape-failed".into() },
+            func: format!("{} (text shape)", fname), src_file: fname.clone(), text: format!("source must contain `{}`", cl.text) });
+    }
     for c in unit.fns.iter() {
         if !used.contains(&c.line) {
             fatal(&format!("lost anchor: contract at line {} ({:?} in {}) matches no function in the working tree", c.line, c.keys, c.file));
